@@ -979,9 +979,14 @@ func (r *verifRun) start(f *FileLogger) {
 	})
 	r.settle()
 	if !verifrt.Symbolic() {
-		r.t0 = time.Now()
+		r.t0 = verifWallClock()
 	}
 }
+
+// verifWallClock: the real clock for the native harness's own waiting. (Written this way because
+// the replay overlay rewrites every literal time.Now() call of the package - harness files
+// included - to the model clock.)
+var verifWallClock = time.Now
 
 // settle: wait until the router is parked in its select with nothing left to receive.
 func (r *verifRun) settle() {
@@ -989,8 +994,8 @@ func (r *verifRun) settle() {
 		verifrt.Join()
 		return
 	}
-	deadline := time.Now().Add(10 * time.Second)
-	for time.Now().Before(deadline) {
+	deadline := verifWallClock().Add(10 * time.Second)
+	for verifWallClock().Before(deadline) {
 		if r.routerExited {
 			return
 		}
